@@ -34,6 +34,13 @@ def main():
         violations.append((dict(property=prop, kind='obligation', theorem_or_case=mod.PROP_FILE,
                                 reason=ps['reason'], log=ps.get('log', '')[-1500:]), False))
 
+    chk = None
+    if ps['ok'] and args.tier == 'thorough':
+        chk = common.coqchk(mod.PROP_FILE)
+        if not chk['ok']:
+            violations.append((dict(property=prop, kind='obligation', theorem_or_case=mod.PROP_FILE,
+                                    reason='coqchk does not accept the compiled development: ' + chk['tail']), False))
+
     # ---- 2. tie (+ corpus first), 3. known findings
     tie = mod.run(args.tier)
     tie.pop('cases', None)          # dict(coverage=..., failures=[payload...], known=[(id, text)], assumptions=[...])
@@ -60,6 +67,7 @@ def main():
                print_assumptions_closed=ps.get('print_assumptions_closed', 0),
                property_theorems=ps.get('property_theorems', 0),
                proof_cone=ps['cone'],
+               coqchk=(dict(ran=True, ok=chk['ok'], axioms=chk['axioms']) if chk else dict(ran=False)),
                trusted_base=[
                    'Coq 8.16.1 kernel and its VM (vm_compute); no native_compute',
                    'axioms reported by Print Assumptions: ' + (', '.join(ps['axioms']) or 'none (Closed under the global context)'),
